@@ -11,11 +11,41 @@ const UNITS4: [u8; 4] = [NONE, 0, 2, 7];
 /// magnitudes: equal-after-conversion pairs (1in = 96px), fuzzy-equal pairs, zero
 const MAGS: [f64; 6] = [1.0, 96.0, 0.0, 1.000000000001, 1.5, 144.0];
 
-fn any_dim() -> Value {
-    let u: usize = kani::any();
+/// U: concrete unit index (heap shape and enum variant stay concrete); the magnitude is symbolic
+fn dim_with<const U: u8>() -> Value {
     let m: usize = kani::any();
-    kani::assume(u < 4 && m < 6);
-    Value::Dimension(SassNumber { num: Number(MAGS[m]), unit: unit_of(UNITS4[u]), as_slash: None })
+    kani::assume(m < 6);
+    Value::Dimension(SassNumber { num: Number(MAGS[m]), unit: unit_of(U), as_slash: None })
+}
+
+fn any_dim() -> Value { dim_with::<0>() }
+
+/// two numbers with concrete units UA, UB
+pub fn check_units<const UA: u8, const UB: u8, const IN_LIST: bool>() {
+    let (v, w) = if IN_LIST {
+        (Value::List(vec![dim_with::<UA>()], any_sep(), any_brackets()), Value::List(vec![dim_with::<UB>()], any_sep(), any_brackets()))
+    } else {
+        (dim_with::<UA>(), dim_with::<UB>())
+    };
+    let e = value_eq(&v, &w);
+    let ne = value_not_equals(&v, &w);
+    assert!(ne == !e, "C09a: != (not_equals) is not the negation of ==");
+    assert!(value_eq(&v, &v) && !value_not_equals(&v, &v), "C09a: == is not reflexive");
+    let e2 = value_eq(&w, &v);
+    assert!(value_not_equals(&w, &v) == !e2, "C09a: != is not the negation of == (swapped)");
+    if UA == UB {
+        // same unit: no conversion involved, == must be symmetric
+        assert!(e == e2, "C09a: == is not symmetric");
+    }
+    let conv = css_class(UA) != 0 && css_class(UA) == css_class(UB);
+    if UA != UB && !conv {
+        assert!(!e && !e2, "C09a: numbers with inconvertible units (or unitless vs unit) compare equal");
+    }
+    kani::cover!(e, "equal");
+    kani::cover!(!e, "unequal");
+    kani::cover!(true, "end");
+    core::mem::forget(v);
+    core::mem::forget(w);
 }
 
 fn any_str() -> Value {
@@ -74,6 +104,24 @@ macro_rules! inst {
     };
 }
 
+macro_rules! uinst {
+    ($name:ident, $a:expr, $b:expr, $l:expr) => {
+        #[kani::proof]
+        #[kani::unwind(4)]
+        #[kani::stub(f64::powi, powi_stub)]
+        #[kani::stub(grass_compiler::sass_value::Number::convert, convert_stub)]
+        pub fn $name() { check_units::<$a, $b, $l>() }
+    };
+}
+uinst!(c09a_num_none_none, 34, 34, false);
+uinst!(c09a_num_px_px, 0, 0, false);
+uinst!(c09a_num_px_in, 0, 2, false);
+uinst!(c09a_num_in_px, 2, 0, false);
+uinst!(c09a_num_px_em, 0, 7, false);
+uinst!(c09a_num_none_px, 34, 0, false);
+uinst!(c09a_num_px_none, 0, 34, false);
+uinst!(c09a_numlist_px_in, 0, 2, true);
+uinst!(c09a_numlist_px_px, 0, 0, true);
 inst!(c09a_num_num, 2, 2);
 inst!(c09a_str_str, 3, 3);
 inst!(c09a_num_str, 2, 3);
